@@ -1,4 +1,4 @@
-import Dbus.Model.Bus.Activation
+import Dbus.Model.Bus.Timed
 import Driver.Bus
 /- driver commands for the activation layer of the bus model (`act …`) -/
 open Dbus Dbus.Spec Dbus.Model Dbus.Model.Bus
@@ -9,6 +9,11 @@ structure ActState where
   acts : List PendingAct := []
   maxPending : Nat := 512
   nspawn : Nat := 0
+  now : Nat := 0
+  replyTimeout : Option Nat := none
+  startTimeout : Nat := 25000
+  slotBorn : List (Pending × Nat) := []
+  actBorn : List (Bytes × Nat) := []
 
 def ActState.abus (st : ActState) : ABus :=
   { core := st.bs.bus, files := st.files, acts := st.acts, maxPending := st.maxPending, nspawn := st.nspawn }
@@ -18,8 +23,24 @@ def showATx (x : ATx) : String :=
     x.killed.map (fun n => s!"K {toHex n.1} {match n.2 with | some k => toString k | none => "x"}")
   if parts.isEmpty then "-" else " | ".intercalate parts
 
-def ActState.after (st : ActState) (x : ATx) : ActState :=
-  { st with bs := { st.bs with bus := x.t.bus }, acts := x.acts, nspawn := x.nspawn }
+def ActState.tbus (st : ActState) : TBus :=
+  { a := st.abus, now := st.now, replyTimeout := st.replyTimeout, startTimeout := st.startTimeout,
+    slotBorn := st.slotBorn, actBorn := st.actBorn }
+
+def ActState.ofT (st : ActState) (t : TBus) : ActState :=
+  { st with bs := { st.bs with bus := t.a.core }, acts := t.a.acts, nspawn := t.a.nspawn, now := t.now,
+            slotBorn := t.slotBorn, actBorn := t.actBorn }
+
+/-- the state after a transaction of the activation layer: the time stamps follow (`TBus.next`) -/
+def ActState.after (st : ActState) (x : ATx) : ActState := st.ofT (st.tbus.next x)
+
+/-- after a command that went to the core directly -/
+def ActState.restamped (st : ActState) : ActState :=
+  { st with slotBorn := stampSlots st.now st.slotBorn st.bs.bus.pending, actBorn := stampActs st.now st.actBorn st.acts }
+
+def showATxs (xs : List ATx) : String :=
+  let parts := (xs.map showATx).filter (· ≠ "-")
+  if parts.isEmpty then "-" else " | ".intercalate parts
 
 def hexOrEmpty (s : String) : Option Bytes := if s = "-" then some [] else ofHex s
 
@@ -32,7 +53,9 @@ def actCmd (st : ActState) (toks : List String) : ActState × String :=
   match toks with
   | "reset" :: rest =>
     let (bs, ans) := busCmd0 {} ("reset" :: rest)
-    ({ bs := bs, maxPending := kvNat rest "pending" 512 }, ans)
+    ({ bs := bs, maxPending := kvNat rest "pending" 512,
+       replyTimeout := (if kvNat rest "replytimeout" 0 = 0 then none else some (kvNat rest "replytimeout" 0)),
+       startTimeout := kvNat rest "starttimeout" 25000 }, ans)
   | ["file", name, exec, parses, runs] =>
     match hexOrEmpty name, hexOrEmpty exec with
     | some n, some e =>
@@ -79,8 +102,16 @@ def actCmd (st : ActState) (toks : List String) : ActState × String :=
       (acc.1.after x, acc.2 ++ [showATx x])) (st, [])
     let parts := outs.filter (· ≠ "-")
     (st', if parts.isEmpty then "-" else " | ".intercalate parts)
+  | ["advance", dt] =>
+    match dt.toNat? with
+    | some dt =>
+      let r := stepT driverTable st.tbus (.advance dt)
+      (st.ofT r.1, showATxs r.2)
+    | none => (st, "bad-op")
   | ["acts"] => (st, showActs st.acts)
+  | ["clock"] =>
+    (st, s!"now={st.now} slots={" ".intercalate (st.slotBorn.map fun e => s!"{e.1.caller}>{e.1.callee}#{e.1.serial}@{e.2}")} acts={" ".intercalate (st.actBorn.map fun e => s!"{asciiOf e.1}@{e.2}")}")
   | _ =>
     -- connect, close, policy, timeout, state: the core's
     let (bs, ans) := busCmd0 st.bs toks
-    ({ st with bs := bs }, ans)
+    (({ st with bs := bs } : ActState).restamped, ans)
